@@ -243,11 +243,41 @@ def evaluate(r, prop, known):
                 loose.remove(e)
                 break
     # errors inside a function that has no contract (a helper introduced by a refactoring, typically): without a precondition its
-    # body cannot be judged, so this is never an alarm; it makes the properties of the file undecided
+    # body cannot be judged, so this is never an alarm; it makes undecided the properties of the contracted functions that reach it
+    # (transitively through other uncontracted functions), and C01
+    def _body_code(fc, f):
+        return ''.join(ch if fc.mask[f.body_open + i] else ' ' for i, ch in enumerate(fc.text[f.body_open:f.body_close])) if f.body_open >= 0 else ''
+    _contracted_names = set(c['name'] for c in asm.contracted)
+    _all_fns = [(rel_, fc, f) for rel_, fc in asm.files.items() if rel_ != 'messages/nom_noalloc.rs' for f in fc.fns]
+
+    def reaching_tags(name):
+        targets, grew = {name}, True
+        while grew:
+            grew = False
+            for (_rel, fc, f) in _all_fns:
+                if f.name in targets or f.name in _contracted_names:
+                    continue
+                b = _body_code(fc, f)
+                if any(re.search(r'\b%s\b' % re.escape(t), b) for t in targets):
+                    targets.add(f.name); grew = True
+        tags, found = set(), False
+        for c in asm.contracted:
+            fc = asm.files.get(c['relpath'])
+            try:
+                f = fc.fn(c['name'], c['within'])
+            except Exception:
+                continue
+            b = _body_code(fc, f)
+            if any(re.search(r'\b%s\b' % re.escape(t), b) for t in targets):
+                found = True
+                tags |= set(c['tags']) | set(tt for x in c['ensures'] for tt in clause_tags(x, c['tags']))
+        return tags if found else None
     for e in loose:
         rel = e['fn'][0]
-        file_tags = set(t for c in asm.contracted if c['relpath'] == rel for t in (set(c['tags']) | set(tt for x in c['ensures'] for tt in clause_tags(x, c['tags']))))
-        if prop == 'C01' or prop in file_tags or not file_tags:
+        rt = reaching_tags(e['fn'][2] or '')
+        if rt is None:
+            rt = set(t for c in asm.contracted if c['relpath'] == rel for t in (set(c['tags']) | set(tt for x in c['ensures'] for tt in clause_tags(x, c['tags']))))
+        if prop == 'C01' or prop in rt or not rt:
             undecided.append('%s::%s has no contract and does not verify on its own (%s)' % (rel, e['fn'][2], e['kind'][:80]))
     names_seen = set(r.breakdown.keys())
     # functions of the repository that have no contract (new helpers introduced by a refactoring, mostly): a caller that fails
